@@ -48,9 +48,13 @@ CLAIMED.update({
          "Seeded search over (sequences, cut positions, delivery permutation, duplicates, drops, out-of-range ids, time between deliveries, cleanup calls) plus exhaustive arrival orders of single sequences. Oracle: Some(result) exactly at the delivery that completes the model's record, None elsewhere; result classified as original / ascending-id concatenation (known finding) / other; pending_count and cleanup_expired agree with the model. Sampling plus small exhaustive enumerations, not proof.",
          "Trusted: tokio paused clock; the simulator's fragmenter (numbers fragments N..1 in stream order as the protocol document prescribes).",
          "DESIGN.md section 3, C09"),
+ "C16": ("deterministic simulation of thread schedules: real PidAllocator::allocate and Node::make_reference on shuttle threads (std Mutex/atomics switched to shuttle's under a cfg): DFS over every schedule for 2-thread configurations, seeded random and PCT schedules for up to 4 threads x 3 calls, counters started at 1 / around the 2^20 wrap / before the serial's 32-bit wrap; single-thread multi-wrap history",
+         "Every explored schedule ends with the oracle: all returned (number, serial) pairs pairwise distinct, every identifier carries the creation set before the threads started, all reference word-vectors and words pairwise distinct. The 2x1 configurations are enumerated exhaustively by shuttle's DFS scheduler (reported per configuration with exhausted=true/false); larger ones are sampled by seeded random and PCT schedulers; failing schedules are persisted and replayed with shuttle::replay_from_file. Sampling plus small exhaustive enumerations, not proof.",
+         "Trusted: shuttle (treats all atomic orderings as SeqCst: weak-memory effects are not explored), the shadow manifests build the same sources as /repo.",
+         "DESIGN.md section 3, C16"),
 })
 
-PENDING = {k: 'check under construction in this session (simulation applies; see DESIGN.md); not claimed yet' for k in ['C06','C14','C16']}
+PENDING = {k: 'check under construction in this session (simulation applies; see DESIGN.md); not claimed yet' for k in ['C06','C14']}
 
 def main():
     hooks = subprocess.run(["git","-C","/repo","log","--format=%H %s","--grep=^verif hook"],capture_output=True,text=True).stdout.strip().splitlines()
@@ -62,7 +66,7 @@ def main():
             "thorough_cmd": f"./check {pid} thorough",
             "evidence_file": f"/verif/evidence/{pid}.json",
             "replay_cmd_template": "./check --replay {path}",
-            "engine": "edp_sim",
+            "engine": "c16_shuttle" if pid == "C16" else "edp_sim",
             "level_claimed": {"category": "exploration", "text": text, "design_ref": ref},
             "level_note": note,
             "technique": tech,
@@ -70,7 +74,7 @@ def main():
     na = [{"property_id": k, "reason": v} for k,v in sorted({**PURE, **PENDING}.items())]
     m = {
         "version": 1,
-        "setup_cmd": "cd /verif/sim && CARGO_NET_OFFLINE=true RUSTFLAGS='--cfg edp_verif' cargo build --profile sim --offline",
+        "setup_cmd": "cd /verif/sim && CARGO_NET_OFFLINE=true RUSTFLAGS='--cfg edp_verif' cargo build --profile sim --offline && cd /verif/c16_shuttle && CARGO_NET_OFFLINE=true RUSTFLAGS='--cfg edp_verif_shuttle' cargo build --profile sim --offline",
         "hooks": {
             "guard": "edp_verif",
             "enable": "RUSTFLAGS='--cfg edp_verif' (set by /verif/check and /verif/sim/.cargo/config.toml); C16 additionally builds shadow manifests with --cfg edp_verif_shuttle",
@@ -79,8 +83,10 @@ def main():
             "add_only": True,
         },
         "engines": [
-            {"name": "edp_sim", "path": "/verif/sim", "serves_properties": sorted(CLAIMED.keys()),
+            {"name": "edp_sim", "path": "/verif/sim", "serves_properties": sorted(k for k in CLAIMED if k != "C16"),
              "kind_free_text": "deterministic simulator: seeded plans + schedule tape, simulated stream transport and paused clock, scripted peer with an independent codec, minimiser and replay"},
+            {"name": "c16_shuttle", "path": "/verif/c16_shuttle", "serves_properties": ["C16"],
+             "kind_free_text": "shuttle-scheduled threads over the real allocator code (shadow manifests add the shuttle dependency; DFS / seeded random / PCT schedulers; persisted schedules replay)"},
         ],
         "checks": checks,
         "not_applicable": na,
